@@ -110,7 +110,8 @@ def make_array(arr, names=None, ds=None, name=None):
     import xarray as xr
 
     nm = names or Names()
-    data = np.array([float("nan") if v == "nan" else float(v) for v in arr["flat"]], dtype="float64").reshape(arr["shape"])
+    # a missing value in the input is written as "nan" or as the distinguished integer NAN_INT (the form TLC can read)
+    data = np.array([float("nan") if v in ("nan", 2 ** 31 - 7) else float(v) for v in arr["flat"]], dtype="float64").reshape(arr["shape"])
     if arr.get("dtype") in ("float32", "int64", "int32"):
         data = data.astype(arr["dtype"])       # small integers: exact in every one of these types
     lay = arr.get("layout")
